@@ -299,7 +299,33 @@ def c10(case, rec=None):
                 multi = True
             # receptive fields (no up-scaling; kernel operations only)
             for c, f, lab in items:
-                if c.kind == "elementwise" or f.get("upscale") or not lab.get("kernel") or lab.get("ifm_box") is None or lab.get("explicit_padding") is None:
+                if c.kind == "elementwise" or not lab.get("kernel") or lab.get("ifm_box") is None or lab.get("explicit_padding") is None:
+                    continue
+                if f.get("upscale"):
+                    # x2 up-scaling (H2): the hardware up-scales the rows it is given starting with the first row of the stripe's IFM, i.e. the up-scaled plane of the
+                    # stripe starts at up-scaled row 2*a; kernel, stride and pads apply to the up-scaled plane
+                    kw, kh, sx, sy, dx, dy = lab["kernel"]
+                    dk = dy * (kh - 1) + 1
+                    if (lab.get("read_offsets") or [None])[0] or lab.get("write_shape") or lab.get("padding") == "TILE" or (f["kernel"]["stride_y"], f["kernel"]["dilated_h"]) != (sy, dk):
+                        continue
+                    P_top = lab["explicit_padding"][0]
+                    H2 = 2 * (lab.get("ifm_full_shape") or [0, 0, 0, 0])[1]
+                    y0, y1 = lab["ofm_box"][0][1], lab["ofm_box"][1][1]
+                    r0, r1 = y0 * sy - P_top, (y1 - 1) * sy - P_top + dk
+                    pt, pb = f["pad"]["top"], f["pad"]["bottom"]
+                    E2 = (y1 - y0 - 1) * sy + dk - pt - pb
+                    a = lab["ifm_box"][0][1]
+                    checked += 1
+                    where = "%s (x2 up-scaled IFM) stripe rows [%d,%d): kernel %d stride %d operator top pad %d, %d up-scaled input rows" % (name, y0, y1, dk, sy, P_top, H2)
+                    if 2 * a != max(r0, 0) or pt != max(0, -r0):
+                        raise Violation("C10/artefact/upscaled-top", "%s: the IFM starts at row %d (up-scaled row %d) with top pad %d, the receptive field starts at up-scaled row %d" % (where, a, 2 * a, pt, r0), case)
+                    if 2 * a + E2 != min(r1, H2) or pb != max(0, r1 - H2):
+                        raise Violation("C10/artefact/upscaled-bottom", "%s: bottom pad %d and %d up-scaled rows end at up-scaled row %d, the receptive field ends at up-scaled row %d" % (where, pb, E2, 2 * a + E2, r1), case)
+                    b = lab["ifm_box"][1][1]
+                    if b < a + -(-E2 // 2) or b > H2 // 2:
+                        raise Violation("C10/artefact/upscaled-box", "%s: IFM box rows [%d,%d) do not cover the %d rows the hardware reads" % (where, a, b, -(-E2 // 2)), case)
+                    if rec is not None:
+                        rec.cls("artefact-upscaled-stripe-checked")
                     continue
                 if lab.get("padding") == "TILE":
                     continue  # edge replication through side-by-side tiles instead of padding registers (half-pixel bilinear resize): not a zero-padding geometry
